@@ -47,6 +47,9 @@ Workloads == { <<L(24, 8)>>, <<L(100, 1), L(40, 32)>>, <<L(300, 8), L(17, 1), L(
 \* element layouts of the exclusive-borrow collections (u8, [u8; 3], u64, a 32-byte type aligned to 32)
 SimElems == {[sz |-> 1, al |-> 1], [sz |-> 3, al |-> 1], [sz |-> 8, al |-> 8], [sz |-> 32, al |-> 32]}
 McElems == {[sz |-> 3, al |-> 1], [sz |-> 8, al |-> 8]}
+\* element layouts of growable vectors (u8, u64, a 32-byte type aligned to 32) and the wrappers their handle may sit in
+VecElems == {[sz |-> 1, al |-> 1], [sz |-> 8, al |-> 8], [sz |-> 32, al |-> 32]}
+VecWraps == {"none", "wd", "ws"}
 
 \* Model-checking step relation: parameters that do not influence the successor state (zeroed; wrappers that an
 \* operation ignores) are fixed, so that TLC does not generate the same successor several times.
@@ -77,14 +80,19 @@ Next ==
     \/ \E e \in McElems, rv \in Bools, c0 \in {0, 3}, f \in Bools : EnterPrep(e, rv, c0, f)
     \/ \E f \in Bools : PrepPush(f)
     \/ \E f \in Bools : PrepReserve(20, f)
+    \/ \E f \in Bools : PrepExtend(5, f)
     \/ PrepCommit
     \/ PrepDrop("return")
     \/ \E rv \in Bools, h \in {0, 3}, n \in {2, 5} : IterMut([sz |-> 8, al |-> 8], rv, h, n)
+    \/ \E c \in Bools : FmtMut(<<3, 20>>, c)
     \/ \E id \in LiveIds, at \in {1, 8, 16} : Split(id, at)
     \/ ScopeTwice(<<L(40, 32), L(24, 4)>>)
     \/ \E tw \in {t \in TwFams : t.name \in McTw}, o \in Bools, m \in Bools, i \in Bools : AllocTryWith(tw, o, m, i, FALSE)
     \/ \E tw \in {t \in TwFams : t.name = "a32_u8"}, m \in Bools : AllocTryWith(tw, FALSE, m, FALSE, TRUE)
     \/ AllocValue("copy_u8", 3, FALSE)
+    \/ \E e \in {[sz |-> 1, al |-> 1], [sz |-> 8, al |-> 8]}, c0 \in {0, 2}, w \in {"none", "wd", "ws"}, f \in Bools : VecNew(e, c0, w, f)
+    \/ \E id \in VecIds, kh \in {<<1, "push">>, <<3, "extend_copy">>, <<2, "reserve_exact">>}, f \in Bools : VecExtend(id, kh[1], kh[2], f)
+    \/ \E id \in VecIds : VecShrink(id) \/ VecTruncate(id, 0) \/ VecDrop(id) \/ VecInto(id)
 
 Spec == Init /\ [][Next]_vars
 
@@ -100,6 +108,18 @@ PrepFailNext ==
     \/ PrepDrop("return")
 PrepFailSpec == Init /\ [][PrepFailNext]_vars
 
+\* focused step relation: growable vectors interleaved with plain allocations and scopes, deeper than the general relation
+VecMcCfgs == {c \in AllCfgs : c.ma \in {1, 8} /\ c.mcs = 0 /\ c.hs = 32 /\ c.extra = 0 /\ ~c.skew /\ c.ga}
+VecNext ==
+    \/ Alloc([sz |-> 8, al |-> 8], FALSE, FALSE)
+    \/ \E id \in LiveIds : Dealloc(id, "none")
+    \/ \E c0 \in {0, 2}, w \in {"none", "wd", "ws"} : VecNew([sz |-> 8, al |-> 8], c0, w, FALSE)
+    \/ \E id \in VecIds, kh \in {<<1, "push">>, <<3, "extend_copy">>} : VecExtend(id, kh[1], kh[2], FALSE)
+    \/ \E id \in VecIds : VecShrink(id) \/ VecTruncate(id, 0) \/ VecDrop(id) \/ VecInto(id)
+    \/ EnterFrame("scope")
+    \/ ExitScope("return")
+VecSpec == Init /\ [][VecNext]_vars
+
 \* ---- random behaviours for the replayer (tlc -simulate): parameters are drawn with RandomElement so that every
 \* step has one successor per action kind (the simulator then picks the kind uniformly), and a behaviour is printed
 \* exactly once, by the Finish step
@@ -108,18 +128,20 @@ R(S) == RandomElement(S)
 \* density of the situations one property is about).  G(g) guards every disjunct of SimStep.
 FocusGroups ==
     CASE Focus = "prep"    -> {"alloc", "scope", "prep", "fail", "reset", "aligned"}
-      [] Focus = "claim"   -> {"alloc", "dealloc", "realloc", "scope", "claim", "fail", "prep"}
+      [] Focus = "claim"   -> {"alloc", "dealloc", "realloc", "scope", "claim", "fail", "prep", "vec"}
       [] Focus = "aligned" -> {"alloc", "dealloc", "realloc", "scope", "aligned", "prep", "reset"}
-      [] Focus = "realloc" -> {"alloc", "dealloc", "realloc", "split", "scope", "trywith", "reset"}
-      [] Focus = "fail"    -> {"alloc", "realloc", "reserve", "scope", "prep", "fail", "huge", "trywith", "value", "reset"}
+      [] Focus = "realloc" -> {"alloc", "dealloc", "realloc", "split", "scope", "trywith", "reset", "vec"}
+      [] Focus = "fail"    -> {"alloc", "realloc", "reserve", "scope", "prep", "fail", "huge", "trywith", "value", "reset", "vec"}
       [] Focus = "scope"   -> {"alloc", "dealloc", "scope", "reset", "trywith", "composite", "reserve", "claim"}
       [] OTHER             -> {"alloc", "dealloc", "realloc", "reserve", "scope", "reset", "huge", "claim", "aligned", "prep",
-                               "fail", "trywith", "value", "composite", "split"}
+                               "fail", "trywith", "value", "composite", "split", "vec"}
 G(g) == g \in FocusGroups
 
 SimStep ==
     \/ (G("alloc") /\ Alloc(R(Layouts), R(Bools), FALSE))
     \/ (G("alloc") /\ Alloc(R(Layouts), FALSE, FALSE))
+    \/ (G("alloc") /\ cur # 0 /\ \E a \in {R({1, 2, 4, 8, 16, 32})}, d \in {R({0 - 1, 0, 0, 1})} :
+            LET n == ChunkRemaining(chunks[cur]) + d IN n >= 0 /\ Alloc([sz |-> n, al |-> a], FALSE, FALSE))
     \/ (G("dealloc") /\ LiveIds # {} /\ Dealloc(R(LiveIds), R(Wraps)))
     \/ (G("dealloc") /\ LiveIds # {} /\ Dealloc(R(LiveIds), "none"))
     \* (RandomElement is re-evaluated at every use of a LET definition: bind the drawn values with \E x \in {R(S)})
@@ -155,7 +177,19 @@ SimStep ==
     \/ (G("prep") /\ CanFail /\ PrepPush(TRUE))
     \/ (G("prep") /\ PrepReserve(R({1, 3, 10, 40, 300}), FALSE))
     \/ (G("prep") /\ CanFail /\ PrepReserve(R({10, 40, 300, 2000}), TRUE))
+    \/ (G("prep") /\ PrepExtend(R({1, 2, 3, 7, 20}), FALSE))
+    \/ (G("prep") /\ CanFail /\ PrepExtend(R({7, 20, 35}), TRUE))
+    \* boundary capacities: exactly what the free space of the current chunk holds, one less, one more
+    \/ (G("prep") /\ cur # 0 /\ \E e \in {R(SimElems)} :
+            LET n == ChunkRemaining(chunks[cur]) \div e.sz IN \E d \in {R({0 - 1, 0, 0, 1})} : n + d >= 1 /\ EnterPrep(e, R(Bools), n + d, FALSE))
+    \/ (G("prep") /\ InPrep /\ cur # 0 /\ LET f == frames[Depth]
+                                              n == ChunkRemaining(chunks[cur]) \div f.esz - f.len
+                                          IN \E d \in {R({0 - 1, 0, 0, 1})} : n + d >= 1 /\ f.len + n + d <= 600 /\ PrepExtend(n + d, FALSE))
+    \/ (G("prep") /\ InPrep /\ cur # 0 /\ LET f == frames[Depth]
+                                              n == ChunkRemaining(chunks[cur]) \div f.esz - f.len
+                                          IN \E d \in {R({0 - 1, 0, 0, 1})} : n + d >= 1 /\ PrepReserve(n + d, FALSE))
     \/ (G("prep") /\ IterMut(R(SimElems), R(Bools), R({0, 0, 2, 5, 30}), R({0, 1, 3, 5, 9})))
+    \/ (G("prep") /\ FmtMut(R({<<1, 1>>, <<3, 20>>, <<5, 5, 5>>, <<40, 1, 300>>, <<8, 600>>}), R(Bools)))
     \/ (G("prep") /\ PrepCommit)
     \/ (G("prep") /\ PrepDrop(R({"return", "unwind"})))
     \/ (G("trywith") /\ \E tw \in {R(TwFams)} : AllocTryWith(tw, R(Bools), R(Bools), FALSE, FALSE))
@@ -167,6 +201,20 @@ SimStep ==
     \/ (G("composite") /\ nops <= 4 /\ \E w \in {R(Workloads)} : ResetLoop(w, 6))
     \/ (G("split") /\ LiveIds # {} /\ \E id \in {R(LiveIds)} :
             LET ats == {a \in 1..(blocks[id].sz - 1) : a % blocks[id].al = 0} IN ats # {} /\ \E at \in {R(ats)} : Split(id, at))
+    \/ (G("vec") /\ Cardinality(VecIds) < 3 /\ VecNew(R(VecElems), R({0, 0, 1, 4, 10}), R(VecWraps), FALSE))
+    \/ (G("vec") /\ VecIds = {} /\ VecNew(R(VecElems), R({0, 1, 4}), "none", FALSE))
+    \/ (G("vec") /\ G("fail") /\ CanFail /\ VecNew(R(VecElems), R({10, 100, 700}), R(VecWraps), TRUE))
+    \/ (G("vec") /\ VecIds # {} /\ \E id \in {R(VecIds)} : VecExtend(id, 1, "push", FALSE))
+    \/ (G("vec") /\ VecIds # {} /\ \E id \in {R(VecIds)} : VecExtend(id, 1, "push", FALSE))
+    \/ (G("vec") /\ VecIds # {} /\ \E id \in {R(VecIds)} : VecExtend(id, R({1, 2, 3, 7, 20}), R(VecHows \ {"push"}), FALSE))
+    \/ (G("vec") /\ VecIds # {} /\ \E id \in {R(VecIds)} : VecExtend(id, R({2, 5}), R({"within_copy", "within_clone", "extend_clone"}), FALSE))
+    \/ (G("vec") /\ G("fail") /\ CanFail /\ VecIds # {} /\ \E id \in {R(VecIds)} :
+            VecExtend(id, R({3, 20, 35}), R({"extend_copy", "reserve", "reserve_exact", "resize", "extend_clone"}), TRUE))
+    \/ (G("vec") /\ G("fail") /\ CanFail /\ VecIds # {} /\ \E id \in {R(VecIds)} : VecExtend(id, 1, "push", TRUE))
+    \/ (G("vec") /\ VecIds # {} /\ VecShrink(R(VecIds)))
+    \/ (G("vec") /\ VecIds # {} /\ \E id \in {R(VecIds)} : blocks[id].vlen > 0 /\ \E n \in {R(0..(blocks[id].vlen - 1))} : VecTruncate(id, n))
+    \/ (G("vec") /\ VecIds # {} /\ VecDrop(R(VecIds)))
+    \/ (G("vec") /\ VecIds # {} /\ VecInto(R(VecIds)))
     \/ (G("fail") /\ CanFail /\ Alloc(R(Layouts), FALSE, TRUE))
     \/ (G("fail") /\ CanFail /\ Reserve(R({600, 3000}), TRUE))
     \/ (G("fail") /\ CanFail /\ LiveIds # {} /\ \E id \in {R(LiveIds)} :
